@@ -69,3 +69,11 @@ Definition chk_row (pre : rruns) (o : rop) (post : rruns) (postmap : list Z) : n
               else if negb (cells_eqb (expand r) (expand post)) then 8%nat
               else if runs_eqb r post then 0%nat else 9%nat
   end.
+
+(* validation of the PINNED model (used only to show that the ..._refuted theorems speak about the pinned code):
+   0 = the pinned model reproduces the implementation's XML exactly, 9 = it does not *)
+Definition chk_pinned (ob : obs) : nat :=
+  let '(Obs pre o post raised tm cm rmaps reads) := ob in
+  match t_step_pinned (to_tstate pre) o with
+  | Some t' => if tstate_eqb t' (to_tstate post) then 0%nat else 9%nat
+  | None => 9%nat end.
